@@ -8,7 +8,13 @@ share_dict, key aliases, key-order permutations) are loaded with ConfigLoader(di
 process and once in a fresh subprocess; get_decay() chains with (l,s) lists, quantum numbers,
 parameter names and trainable variables are compared with the model *inside Coq*; repeated loads
 with each other exactly; as_config export -> load reproduces chains and quantum numbers;
-hand-expanded configs (no alias / include / candidate list) load to the same chains."""
+hand-expanded configs (no alias / include / candidate list) load to the same chains.
+Also observed: the decay / creators lists left in the particle objects of the loaded chains (the cut must
+remove a chain completely; tied to the model by sdecs_ok), and the export made after get_amplitude()
+(plain values; loading it gives the same chains and parameter names).  A resonance may be a candidate of
+several slots; one resonance may be defined in the main file and in two included files with different alias
+spellings.  Open finding with a fixed reproducer (same_decay_two_slots_case): the same decay declared under
+two slot keys with different options / daughter order makes the model depend on the key order."""
 import copy
 import itertools
 import json
@@ -147,6 +153,7 @@ def gen_config(rnd, quick, cpar=False):
     leaves_of = {v: k for k, v in slot_of.items()}
     used_names = set(finals) | {top} | set(slot_of.values())
     allres = []
+    res_leaves = {}   # resonance -> leaf sets of the slots it is a candidate of
     modes = {sl: rnd.choice(["list", "list", "list", "self", "nested", "empty"] if len(leaves_of) > 1 else ["list", "list", "self", "nested"])
              for sl in leaves_of}
     for sl, lv in leaves_of.items():
@@ -161,6 +168,13 @@ def gen_config(rnd, quick, cpar=False):
             continue
         k = rnd.randrange(1, 4)
         names = []
+        # a resonance may be a candidate of several slots (not of nested ones: a particle must not be its
+        # own ancestor); its properties are declared once.  Two slot keys never have the same daughters, so
+        # the same decay is never declared twice under different keys (open finding, see open_finding_cases)
+        reuse = [r for r, lvs in res_leaves.items() if not any(set(lv2) <= set(lv) or set(lv) <= set(lv2) for lv2 in lvs)]
+        shared = []
+        if reuse and rnd.random() < 0.25:
+            shared = rnd.sample(sorted(set(reuse)), min(len(set(reuse)), rnd.randrange(1, 3)))
         for _ in range(k):
             nm = rnd.choice(RES_POOL) + rnd.choice(["1", "2", "_2460", "(4025)", "p", "0"])
             if nm in used_names:
@@ -171,6 +185,8 @@ def gen_config(rnd, quick, cpar=False):
             modes[sl] = "empty"
             particle[sl] = []
             continue
+        for nm in names + shared:
+            res_leaves.setdefault(nm, []).append(lv)
         cand = []
         base_jp = None
         for nm in names:
@@ -204,6 +220,8 @@ def gen_config(rnd, quick, cpar=False):
                     over[nk] = round(pr[kk] * 1.1, 3) if isinstance(pr[kk], float) else pr[kk]
                 # never both alias and canonical key inside ONE dict
                 particle[nm] = over if over else {key("mass"): 1.234}
+        for nm in shared:
+            cand.insert(rnd.randrange(len(cand) + 1), nm)
         nest_targets = [s for s in leaves_of if s != sl and modes[s] in ("list", "nested")]
         if mode == "nested" and nest_targets:
             # (a slot declared `[]` AND extended through a nested map is key-order dependent in the
@@ -216,6 +234,12 @@ def gen_config(rnd, quick, cpar=False):
                 particle[extra] = props(rnd.choice([0, 2]) + tjo, True)
                 cand.append({other: [extra]})
         particle[sl] = cand
+    # enforce the stated exclusion (a slot declared `[]` is not also extended through a nested map): a slot can
+    # turn out empty after another slot chose it as its nest target
+    for sl0 in [k for k, v in particle.items() if v == []]:
+        for k, v in particle.items():
+            if isinstance(v, list) and any(isinstance(c, dict) and sl0 in c and isinstance(c[sl0], list) for c in v):
+                particle[k] = [c for c in v if not (isinstance(c, dict) and sl0 in c and isinstance(c[sl0], list))]
     # key order of the particle section
     items = list(particle.items())
     rnd.shuffle(items)
@@ -226,7 +250,37 @@ def gen_config(rnd, quick, cpar=False):
     fin = {f: props(twoj[f], False) for f in finals}
     psec["$finals"] = fin
     share = {}
-    if inc:
+    # includes and aliases together: one resonance defined in the main file AND in two included files, each
+    # with its own spelling (m0 / mass, g0 / width, Par / P) and its own values: the main file wins, then the
+    # first include, per canonical key
+    clash = None
+    plain = [r for r in allres if (r in inc) != (r in particle) and isinstance((inc.get(r) or particle.get(r)), dict)]
+    if plain and rnd.random() < 0.4:
+        r = rnd.choice(plain)
+        full = canon_props(inc.pop(r) if r in inc else particle[r])
+        def respell(d):
+            items = [(key(kk), vv) for kk, vv in d.items()]
+            rnd.shuffle(items)
+            return dict(items)
+        e1 = respell(full)
+        e2 = respell({kk: (round(vv * 2.25, 3) if kk in ("mass", "width") else vv) for kk, vv in full.items()
+                      if kk in ("mass", "width") or rnd.random() < 0.5})
+        own = respell({kk: round(full[kk] * 0.8, 3) for kk in rnd.sample(["mass", "width"], rnd.randrange(1, 3))})
+        clash = (r, e1, e2)
+        particle[r] = own
+        items = [(k, v) for k, v in items if k != r]
+        items.insert(rnd.randrange(len(items) + 1), (r, own))
+    if clash:
+        ks = list(inc)
+        h = len(ks) // 2
+        psec["$include"] = ["res1.yml", "res2.yml"]
+        share["res1.yml"] = {k: inc[k] for k in ks[:h]}
+        share["res2.yml"] = {k: inc[k] for k in ks[h:]}
+        for f, e in (("res1.yml", clash[1]), ("res2.yml", clash[2])):
+            its = list(share[f].items())
+            its.insert(rnd.randrange(len(its) + 1), (clash[0], e))
+            share[f] = dict(its)
+    elif inc:
         if rnd.random() < 0.5 or len(inc) < 2:
             psec["$include"] = "res.yml"
             share["res.yml"] = inc
@@ -368,8 +422,9 @@ def pstr(p):
     return str(p)
 
 
-def observe(cfg, share, amplitude=True):
-    """load once; everything JSON-able"""
+def observe(cfg, share, amplitude=True, live=None):
+    """load once; everything JSON-able (live: dict that receives the un-serialised export made AFTER
+    the amplitude was built)"""
     from tf_pwa.config_loader import ConfigLoader
 
     out = {}
@@ -392,6 +447,16 @@ def observe(cfg, share, amplitude=True):
         chains.append(decs)
     out["chains"] = chains
     out["pinfo"] = pinfo
+    # state left in the particle objects of the loaded chains: their decay / creators lists
+    parts = {}
+    for ch in dg:
+        for d in ch:
+            for p in [d.core] + list(d.outs):
+                parts[id(p)] = p
+    out["pdecays"] = sorted(set((pstr(d.core), tuple(pstr(o) for o in d.outs)) for p in parts.values() for d in p.decay))
+    out["pcreators"] = sorted(set((pstr(d.core), tuple(pstr(o) for o in d.outs)) for p in parts.values() for d in p.creators))
+    out["pdecays"] = [[c, list(o)] for c, o in out["pdecays"]]
+    out["pcreators"] = [[c, list(o)] for c, o in out["pcreators"]]
     out["export"] = json.loads(json.dumps(dg.as_config(), default=lambda o: list(o) if isinstance(o, tuple) else str(o)))
     out["struct_chains"] = [[[pstr(d.core), [pstr(o) for o in d.outs]] for d in ch] for ch in c.get_decay(False)]
     if amplitude:
@@ -400,6 +465,13 @@ def observe(cfg, share, amplitude=True):
         out["trainable"] = list(c.vm.trainable_vars)
         out["bound"] = sorted((k, list(v)) for k, v in c.bound_dic.items())
         out["decay_lists"] = sorted((pstr(p), len(p.decay), len(p.creators)) for p in dg.resonances)
+        exp2 = dg.as_config()
+        # an export is a configuration: plain numbers / strings / None only, no live fit variables
+        out["export_after_live"] = sorted("%s.%s:%s" % (k, kk, type(vv).__name__) for k, v in exp2["particle"].items() if isinstance(v, dict)
+                                          for sec in ([v] if k not in ("$top", "$finals") else list(v.values())) if isinstance(sec, dict)
+                                          for kk, vv in sec.items() if not (vv is None or isinstance(vv, (bool, int, float, str, list, tuple, dict))))
+        if live is not None:
+            live["export_after"] = exp2
     return out
 
 
@@ -589,6 +661,8 @@ def case_statements(cid, cfg, share, obs):
             o = lambda v: "None" if v is None else "(Some %s)" % zt(v)  # noqa: E731
             pi.append("(%d,(%s,%s,%s,%s,%s))" % (nm(base), zt(j), zt(par), o(cc), o(m), o(w)))
         st.append((cid + "_pinfo", "pinfo_ok %s [%s] = true" % (ct, ";".join(pi)), "DecayConfig.particle_item"))
+        sd = ";".join("(%s,[%s])" % (parse_pid(c, nm), ";".join(parse_pid(x, nm) for x in o)) for c, o in obs["pdecays"])
+        st.append((cid + "_sdecs", "sdecs_ok %s [%s] = true" % (ct, sd), "DecayConfig.decay_cut"))
         if "params" in obs:
             st.append((cid + "_params", "params_ok %s %s %s = true" % (ct, param_terms(obs, obs["params"], nm), param_terms(obs, obs["trainable"], nm)),
                        "ConfigLoader.get_amplitude params"))
@@ -601,7 +675,30 @@ def case_statements(cid, cfg, share, obs):
 def direct_checks(cid, cfg, share, rnd, first=None):
     """returns a failing-input dict or None"""
     a = first if first is not None else observe(cfg, share)
-    b = observe(cfg, share)
+    if "error" not in a and "params" not in a:
+        a = observe(cfg, share)
+    live = {}
+    b = observe(cfg, share, live=live)
+    if "error" not in a:
+        # a removed chain is removed completely: the decay / creators lists of the particles of the loaded
+        # chains hold the decays of the loaded chains and nothing else
+        used = sorted(set((d[0], tuple(d[1])) for ch in a["chains"] for d in ch))
+        for key in ("pdecays", "pcreators"):
+            got = sorted((c, tuple(o)) for c, o in a[key])
+            if got != used:
+                return {"what": "Particle.%s lists differ from the decays of the loaded chains (a chain removed by the cut left decays behind)" % key[1:],
+                        "config": cfg, "share_dict": share, "only_in_lists": [x for x in got if x not in used],
+                        "only_in_chains": [x for x in used if x not in got], "chains": a["chains"]}
+        if a.get("export_after_live"):
+            return {"what": "the export made after the amplitude is built contains live objects instead of values", "config": cfg,
+                    "share_dict": share, "live_entries": a["export_after_live"]}
+        if "export_after" in live:
+            r2 = observe(live["export_after"], {})
+            if chain_set(a) != chain_set(r2) or sorted(a["params"]) != sorted(r2.get("params", [])) or sorted(a["trainable"]) != sorted(r2.get("trainable", [])):
+                return {"what": "the export made after the amplitude is built does not load back to the same chains / parameter names", "config": cfg,
+                        "share_dict": share, "params_missing_after_reload": sorted(set(a["params"]) - set(r2.get("params", []))),
+                        "params_new_after_reload": sorted(set(r2.get("params", [])) - set(a["params"])),
+                        "trainable": sorted(a["trainable"]), "trainable_reloaded": sorted(r2.get("trainable", [])), "reload": r2.get("error")}
     if a != b:
         diff = [k for k in set(a) | set(b) if a.get(k) != b.get(k)]
         return {"what": "two loads of the same configuration in one process differ", "differs_in": diff, "config": cfg, "share_dict": share,
@@ -656,6 +753,52 @@ def search(ctx, fails):
     return None
 
 
+# --------------------------------------------------------------------------- open findings: fixed reproducers
+
+
+def same_decay_two_slots_case():
+    """One resonance (K1) is a candidate of two slot keys with the same daughters; the two cards differ in
+    options and daughter order.  get_decay_struct keeps ONE decay object per (mother, daughters): the options
+    of the card processed last (new_decay_params[dec_i] = ...) and the daughter order of the card processed
+    first (BaseParticle.add_decay ignores the second) - the model depends on the key order of `decay`."""
+    items = [("A", [["X", "E", {"p_break": True}], ["Y", "Z", {"p_break": True}]]),
+             ("X", [["R_BC", "D"]]),
+             ("R_BC", ["B", "C", {"l_list": [0]}]),
+             ("Y", ["C", "B"]),
+             ("Z", ["D", "E"])]
+    particle = {"$top": {"A": {"J": 0, "P": -1, "mass": 5.3}},
+                "$finals": {"B": {"J": 1, "P": -1, "mass": 1.0}, "C": {"J": 0, "P": -1, "mass": 0.5},
+                            "D": {"J": 0, "P": -1, "mass": 0.14}, "E": {"J": 0, "P": -1, "mass": 0.14}},
+                "X": ["X1"], "R_BC": ["K1"], "Y": ["K1"], "Z": ["Z1"],
+                "X1": {"J": 1, "P": 1, "mass": 3.0, "width": 0.2},
+                "K1": {"J": 1, "P": 1, "mass": 1.8, "width": 0.1},
+                "Z1": {"J": 1, "P": -1, "mass": 0.77, "width": 0.15}}
+    def cfg(order):
+        return {"data": {"dat_order": ["B", "C", "D", "E"]}, "decay": {items[i][0]: copy.deepcopy(items[i][1]) for i in order},
+                "particle": copy.deepcopy(particle)}
+    return cfg([0, 1, 2, 3, 4]), cfg([0, 1, 3, 2, 4])
+
+
+def open_finding_cases(ctx):
+    import io
+    import contextlib
+    c1, c2 = same_decay_two_slots_case()
+    with contextlib.redirect_stdout(io.StringIO()):
+        o1, o2 = observe(c1, {}), observe(c2, {})
+    ctx.evaluations += 2
+    ctx.count("fixed_case_same_decay_two_slots")
+    if chain_set(o1) != chain_set(o2) or sorted(o1.get("params", [])) != sorted(o2.get("params", [])):
+        k1 = [d for ch in o1.get("chains", []) for d in ch if d[0] == "K1"][:1]
+        k2 = [d for ch in o2.get("chains", []) for d in ch if d[0] == "K1"][:1]
+        ctx.fail("key-order", "same_decay_two_slots", "permuting the keys R_BC / Y of the decay section changes the (l,s) couplings and the parameter names",
+                 inp={"config": c1, "permuted": c2}, site="DecayConfig.get_decay_struct", fingerprint="same-decay-two-slots:options-last-order-first",
+                 failing_input={"what": "key order of the decay section changes the model when the same decay is declared under two slot keys",
+                                "config": c1, "permuted": c2, "K1_decay": k1, "K1_decay_permuted": k2,
+                                "n_params": len(o1.get("params", [])), "n_params_permuted": len(o2.get("params", [])),
+                                "params_only_first": sorted(set(o1.get("params", [])) - set(o2.get("params", []))),
+                                "params_only_permuted": sorted(set(o2.get("params", [])) - set(o1.get("params", [])))})
+
+
 # --------------------------------------------------------------------------- run
 
 
@@ -668,6 +811,11 @@ def run(ctx):
                 "included file or both (override), aliases Par/m0/g0 at random, per-decay options p_break/c_break/l_list/ls_list/model/curve_style "
                 "in one or two option dicts, single- and multi-alternative cards, shuffled key order; spins 0..5/2, random parities so that the ls cut (every 5th config: C-parity family, candidates of a slot share J^P and differ in C, c_break False) "
                 "removes chains; each config: 2 loads here + 1 in a fresh process + expanded form + permuted keys + export/reload; "
+                "a resonance may be a candidate of several (not nested) slots; in 40% of the configs with a plain resonance it is defined in the main "
+                "file and in two included files with independent alias spellings and values; observed besides the chains: the decay / creators lists of "
+                "the particles of the loaded chains (= decays of the loaded chains, also in Coq: sdecs_ok) and the export made AFTER the amplitude is "
+                "built (plain values, reload gives the same chains and parameter names).  Excluded by rule (open finding, one fixed reproducer): the "
+                "same decay declared under two slot keys with different options / daughter order.  "
                 "distinct = distinct configs whose load gives >= 2 chains")
     common.theorem_stage(ctx)
     ncfg = 60 if quick else 600
@@ -700,6 +848,10 @@ def run(ctx):
         ctx.count("chains=%d" % min(nch, 9))
         ctx.count("nfinals=%d" % len(cfg["particle"]["$finals"]))
         ctx.count("include=%s" % ("$include" in cfg["particle"]))
+        cl = [c for v in cfg["particle"].values() if isinstance(v, list) for c in v if isinstance(c, str)]
+        ctx.count("candidate_shared_by_slots=%s" % (len(cl) != len(set(cl))))
+        ctx.count("main_and_two_includes_define_one_resonance=%s" % any(
+            k in cfg["particle"] and all(k in f for f in share.values()) for k in (list(share.values())[0] if len(share) > 1 else [])))
         if "error" in obs:
             ctx.count("load_raises_no_chain")
         if nch >= 2:
@@ -713,6 +865,10 @@ def run(ctx):
         for (sid, stmt, site) in case_statements(cid, cfg, share, obs):
             stmts.append((sid, stmt, "vm_compute; reflexivity"))
             meta[sid] = (site, cfg, share, obs)
+    try:
+        open_finding_cases(ctx)
+    except Exception as e:
+        ctx.fail("load", "same_decay_two_slots", "exception %r" % (e,), site="ConfigLoader", fingerprint="exception")
     proc.wait(timeout=1800)
     try:
         fresh = json.load(open(outp))
@@ -736,10 +892,17 @@ def run(ctx):
             site, cfg, share, obs = meta[sid]
             ctx.fail("model", sid, "model and implementation differ (%s)" % r, inp={"config": cfg, "share_dict": share, "impl_chains": obs.get("chains", obs.get("error"))},
                      site=site, fingerprint=site)
+    kinds = {}
+    for f in ctx.failures:
+        k = "%s | %s | %s" % (f.get("layer"), f.get("site"), str(f.get("detail"))[:100])
+        kinds[k] = kinds.get(k, 0) + 1
+    json.dump(kinds, open(os.path.join(ctx.dir, "failure_kinds.json"), "w"), indent=1)
     return common.finish(ctx, search=search, technique=TECHNIQUE,
-                         extra_assumptions=["grammar restrictions of the model (coq/Comb/Config.v header): two-body decays, $top/$finals given, distinct final names, depth-1 dicts in candidate lists, acyclic cards",
+                         extra_assumptions=["grammar restrictions of the model (coq/Comb/Config.v header): two-body decays, $top/$finals given, distinct final names, depth-1 dicts in candidate lists, acyclic cards, "
+                                            "one slot key per set of daughters (the same decay is not declared under two keys with different options: open finding)",
                                             "parameter-name *strings* are rendered by the harness (get_name replacement table) from the structured names of the model; YAML parsing itself is not modelled (configs are dicts)",
-                                            "as_config round trip and bound_dic are compared on the implementation only (repeated loads / reload), not modelled"])
+                                            "as_config round trip (before and after the amplitude is built) and bound_dic are compared on the implementation only (repeated loads / reload), not modelled",
+                                            "duplicated chains (one resonance a candidate of both daughter slots of one decay) are modelled as the implementation produces them: the property does not speak about multiplicity"])
 
 
 def replay(rep):
